@@ -32,7 +32,8 @@ class EngineFault(KeyboardInterrupt):
 
 
 class Engine:
-    def __init__(self, timeout_ms=20000, max_decisions=400000):
+    def __init__(self, timeout_ms=20000, max_decisions=400000, path_time_limit=300):
+        self.path_time_limit = path_time_limit
         self.solver = z3.Solver()
         self.solver.set("timeout", timeout_ms)
         self.background = []          # facts re-asserted in every path (e.g. table facts)
@@ -256,6 +257,7 @@ class Engine:
             try:
                 if self.background:
                     self.solver.add(self.background)
+                self._arm()
                 fn(self)
                 if not self.check():
                     raise EngineFault("completed path has an unsatisfiable condition")
@@ -270,8 +272,28 @@ class Engine:
                 if len(self.limits) < 20:
                     self.limits.append(str(lim)[:200])
             finally:
+                self._disarm()
                 self.solver.pop()
         return self.stats["paths"]
+
+    # per-path wall-clock guard: a path that does not finish (e.g. the code under test loops) is abandoned, never waited for
+    def _arm(self):
+        import signal
+        if self.path_time_limit:
+            def on_alarm(signum, frame):
+                raise EngineLimit(f"path exceeded {self.path_time_limit}s of wall time")
+            try:
+                signal.signal(signal.SIGALRM, on_alarm)
+                signal.setitimer(signal.ITIMER_REAL, self.path_time_limit)
+            except ValueError:
+                pass
+
+    def _disarm(self):
+        import signal
+        try:
+            signal.setitimer(signal.ITIMER_REAL, 0)
+        except ValueError:
+            pass
 
 
 class LinStore:
